@@ -309,6 +309,24 @@ def usesLag : PlanT → Bool
 def usesFn : PlanT → Bool
   | log => true | diffLog => true | _ => false
 
+/-- the transform a `transform=` keyword of `SimulationPlan.exogenize` DOCUMENTS ("" stands for `None`): level targets for
+`None`/"none"/"level", and "log", "diff", "diff_log" (also spelled "difflog"), "roc", "pct", "flat" -/
+def ofSpelling? : String → Option PlanT
+  | "" => some none
+  | "none" => some none
+  | "level" => some none
+  | "log" => some log
+  | "diff" => some diff
+  | "diff_log" => some diffLog
+  | "difflog" => some diffLog
+  | "roc" => some roc
+  | "pct" => some pct
+  | "flat" => some flat
+  | _ => Option.none
+
+/-- every documented spelling -/
+def spellings : List String := ["", "none", "level", "log", "diff", "diff_log", "difflog", "roc", "pct", "flat"]
+
 end PlanT
 
 /-- one exogenized point of a plan: transform kind, `when_data`, `_shift`, row of the target series
